@@ -222,7 +222,7 @@ def build_src(fam, L):
     return u * n + w + v * n
 
 
-EXT_MAX_LEN = 4100  # a family that still ramps up at 4L is measured at 8L, 16L, ... up to this input length
+EXT_MAX_LEN = 8200  # a family that still ramps up at 4L is measured at 8L, 16L, ... up to this input length
 
 
 def hot_file(md, src, preset):
@@ -255,8 +255,14 @@ def hot_file(md, src, preset):
     return fn[len(pkg):].lstrip("/")
 
 
+def _cls_of(err):
+    return err.split(":")[0].split(" at input")[0].split(" (")[0][:60]
+
+
 def measure(fam, preset, L, acc):
     """returns (rows, error or None, hot file or None)"""
+    from ..core import match_finding
+
     md = C.build(CFGS[preset])
     rows = []
 
@@ -272,6 +278,33 @@ def measure(fam, preset, L, acc):
             return 0.0, 0.0, 0
         return (c4 / max(1, c2)) / (l4 / l2), (n4 / max(1, n2)) / (l4 / l2), d4 - d2
 
+    def verdict():
+        (l1, c1, n1, d1, _) = rows[0]
+        (l4, c4, n4, d4, _) = rows[-1]
+        gc = (c4 / max(1, c1)) / (l4 / l1)
+        gl = (n4 / max(1, n1)) / (l4 / l1)
+        gcl, gll, dd = last_growth()
+        if gcl <= 1.25:
+            gc = min(gc, gcl)
+        if gll <= 1.25:
+            gl = min(gl, gll)
+        dmax = max(r[3] for r in rows)
+        if gc > GROWTH_MAX:
+            return gc, gl, f"calls grow super-linearly: x{c4 / max(1, c1):.1f} for x{l4 / l1:.1f} input (normalised {gc:.2f})"
+        if gl > GROWTH_MAX:
+            return gc, gl, f"line events grow super-linearly: x{n4 / max(1, n1):.1f} for x{l4 / l1:.1f} input (normalised {gl:.2f})"
+        if dmax > DEPTH_MAX[preset]:
+            return gc, gl, f"Python stack depth {dmax} exceeds the nesting-proportional bound"
+        if dd > 40 and d4 > 2 * d1:
+            return gc, gl, f"Python stack depth grows with the input ({d1} -> {d4})"
+        return gc, gl, None
+
+    def hot_of(mult):
+        try:
+            return hot_file(md, build_src(fam, L * max(1, mult)), preset)
+        except Exception:
+            return ""
+
     src = ""
     mult = 1
     try:
@@ -281,57 +314,41 @@ def measure(fam, preset, L, acc):
                 return rows, f"work exceeds the per-character bound at input length {len(src)} (measurement aborted)", None
         if rows[-1][0] <= rows[0][0]:
             return rows, None, None
-        # work per character ramps up until nesting reaches maxNesting (100 under js-default) and is flat from there:
-        # such a family is linear. A family that still grows faster than its input over the last doubling is
-        # measured further (8L, 16L, ...) until it flattens or the length cap is reached.
-        while True:
-            gcl, gll, dd = last_growth()
-            if gcl <= 1.25 and gll <= 1.25 and dd <= 40:
-                break
-            if len(src) * 2 > EXT_MAX_LEN or rows[-1][0] <= rows[-2][0]:
-                break
-            mult *= 2
-            acc.count("extended_measurements")
-            src, ab = one(mult)
-            if ab:
-                return rows, f"work exceeds the per-character bound at input length {len(src)} (measurement aborted)", None
+        gc, gl, err = verdict()
+        if err:
+            # a family that is a listed finding at L..4L is reported as such; anything else that still grows may be
+            # a ramp: work per character rises until nesting reaches maxNesting (100 under js-default) and is flat
+            # from there. It is measured further (8L, 16L, ...) until the last doubling is linear or the cap is hit.
+            hot = hot_of(2)
+            if match_finding(ID, "growth", _cls_of(err), dict(case_of(fam, preset, L), rows=rows, hot=hot)) is not None:
+                return rows, err, hot
+            while True:
+                gcl, gll, dd = last_growth()
+                if gcl <= 1.25 and gll <= 1.25 and dd <= 40:
+                    break
+                if len(src) * 2 > EXT_MAX_LEN or rows[-1][0] <= rows[-2][0]:
+                    break
+                mult *= 2
+                acc.count("extended_measurements")
+                src, ab = one(mult)
+                if ab:
+                    return rows, f"work exceeds the per-character bound at input length {len(src)} (measurement aborted)", None
+            gc, gl, err = verdict()
     except RecursionError:
         return None, f"RecursionError at input length {len(build_src(fam, L * mult))}", None
     except Exception:
         return None, None, None  # crashes are C01's
-    (l1, c1, n1, d1, _) = rows[0]
-    (l4, c4, n4, d4, _) = rows[-1]
-    gc = (c4 / max(1, c1)) / (l4 / l1)
-    gl = (n4 / max(1, n1)) / (l4 / l1)
-    gcl, gll, dd = last_growth()
-    if gcl <= 1.25:
-        gc = min(gc, gcl)
-    if gll <= 1.25:
-        gl = min(gl, gll)
-    dmax = max(r[3] for r in rows)
+    l4, c4, n4 = rows[-1][0], rows[-1][1], rows[-1][2]
     acc.maxi("growth_calls_max_x1000", int(gc * 1000)) if not _has_refdef(fam) else None
     acc.maxi("growth_lines_max_x1000", int(gl * 1000)) if not _has_refdef(fam) else None
     acc.maxi("calls_per_char_max", max(int(r[1] / r[0]) for r in rows))
     acc.maxi("lines_per_char_max", max(int(r[2] / r[0]) for r in rows))
-    acc.maxi("stack_depth_max_" + preset, dmax)
+    acc.maxi("stack_depth_max_" + preset, max(r[3] for r in rows))
     if c4 / l4 >= 3:
         acc.sig((fam, preset))
-    err = None
-    if gc > GROWTH_MAX:
-        err = f"calls grow super-linearly: x{c4 / max(1, c1):.1f} for x{l4 / l1:.1f} input (normalised {gc:.2f})"
-    elif gl > GROWTH_MAX:
-        err = f"line events grow super-linearly: x{n4 / max(1, n1):.1f} for x{l4 / l1:.1f} input (normalised {gl:.2f})"
-    elif dmax > DEPTH_MAX[preset]:
-        err = f"Python stack depth {dmax} exceeds the nesting-proportional bound"
-    elif dd > 40 and d4 > 2 * d1:
-        err = f"Python stack depth grows with the input ({d1} -> {d4})"
     if err is None:
         return rows, None, None
-    try:
-        hot = hot_file(md, build_src(fam, L * max(1, mult // 2)), preset)
-    except Exception:
-        hot = ""
-    return rows, err, hot
+    return rows, err, hot_of(mult // 2)
 
 
 def _has_refdef(fam):
@@ -406,7 +423,10 @@ def run_shard(sh, acc):
             acc.case(3)
             rows, err, hot = measure(fam, preset, L, acc)
             if err:
-                acc.violation("growth", err.split(":")[0].split(" at input")[0].split(" (")[0][:60], dict(case_of(fam, preset, L), rows=rows, hot=hot or ""), err)
+                acc.violation("growth", _cls_of(err), dict(case_of(fam, preset, L), rows=rows, hot=hot or ""), err)
+                if sum(v[0] for v in acc.viol.values()) >= 3:
+                    acc.count("shards_cut_short_after_3_violations")
+                    break  # (each further super-linear family costs an extended measurement; the verdict stands)
         acc.sample("growth", dict(case_of(fams[0], preset, L), src_prefix=build_src(fams[0], L)[:40]), 1)
     else:
         _, preset, k, L = sh
